@@ -30,6 +30,7 @@ type RecQueue struct {
 	once  sync.Once
 	calls []QCall // AddRateLimited / Forget / AddAfter / Done
 	adds  []string
+	fails map[string]int // the rate limiter's failure count per item (AddRateLimited counts, Forget resets)
 }
 
 func NewRecQueue() *RecQueue {
@@ -68,9 +69,26 @@ func (q *RecQueue) ShuttingDown() bool {
 	}
 }
 func (q *RecQueue) AddAfter(item any, d time.Duration) { q.rec("AddAfter", item, d) }
-func (q *RecQueue) AddRateLimited(item any)            { q.rec("AddRateLimited", item, 0) }
-func (q *RecQueue) Forget(item any)                    { q.rec("Forget", item, 0) }
-func (q *RecQueue) NumRequeues(item any) int           { return 0 }
+func (q *RecQueue) AddRateLimited(item any) {
+	q.mu.Lock()
+	if q.fails == nil {
+		q.fails = map[string]int{}
+	}
+	q.fails[fmt.Sprint(item)]++
+	q.mu.Unlock()
+	q.rec("AddRateLimited", item, 0)
+}
+func (q *RecQueue) Forget(item any) {
+	q.mu.Lock()
+	delete(q.fails, fmt.Sprint(item))
+	q.mu.Unlock()
+	q.rec("Forget", item, 0)
+}
+func (q *RecQueue) NumRequeues(item any) int {
+	q.mu.Lock()
+	defer q.mu.Unlock()
+	return q.fails[fmt.Sprint(item)]
+}
 
 // TakeCalls returns and clears the recorded sync-side calls.
 func (q *RecQueue) TakeCalls() []QCall {
